@@ -90,3 +90,12 @@ func init() {
 			{Name: "leaks", Run: "^TestTableLeaks$", Shards: [2]int{8, 16}},
 		}})
 }
+
+func init() {
+	reg(PropCfg{ID: "C17", Pkg: "c17", Level: "exploration",
+		Rule: "generated programs spawning 1-8 cores; every thread prints unique whole lines built from its spawn arguments (which the spawner overwrites right after the spawn), increments a shared global, pushes to a shared list, reads a read-only global; variants where one thread fails fatally and where main finishes first; each program runs several times in a -race build of the worker with GOMAXPROCS in {1,2,4,16} and optional yields in host callbacks; oracle: output multiset equals the expected multiset of whole lines, nothing arrives after the wait returned, a failing thread's interrupt is the one reported and no core/goroutine survives it, the race detector stays silent (GORACE=halt_on_error: a report kills the worker and is read from its stderr); interleavings are SAMPLED, not enumerated; non-trivial = >= 2 threads; distinct by program text + scheduler setting",
+		Assumptions: []string{"the Go race detector reports only races that occur in the sampled executions"},
+		Jobs: []Job{
+			{Name: "threads", Run: "^TestThreads$", Checks: [2]int{60, 1200}, Shards: [2]int{8, 16}, Race: true, Env: []string{"GORACE=halt_on_error=1"}},
+		}})
+}
